@@ -42,6 +42,7 @@ pub proof fn lemma_suffix_boundary(s: Seq<char>, t: Seq<char>)
 //@ sig pub fn trim_prefix<T: AsRef<Path>, U: AsRef<Path>>(path: T, prefix: U) -> PathBuf
 //@ rw R7 * re⟦PathBuf::from\(&base\[([^\]]+)\.\.\]\)⟧ => ⟦PathBuf::from_s(&base.slice_from(\1))⟧
 //@ rw R4 * ⟦.chars().count()⟧ => ⟦.chars_count()⟧
+//@ rw R1 * ⟦PathBuf::from(⟧ => ⟦PathBuf::from_s(⟧
 //@ ins start
     proof {
         if path.utf8_ok() && prefix.utf8_ok() && is_prefix(prefix.pstr(), path.pstr()) {
@@ -244,7 +245,7 @@ impl Str {
     { unimplemented!() }
     // str::trim_start_matches(lit): removes every leading repetition of lit
     #[verifier::external_body]
-    pub fn trim_start_matches(&self, lit: &'static str) -> (r: Str) ensures r@ == strip_all(self@, lit@) { unimplemented!() }
+    pub fn trim_start_matches<P: StrPat>(&self, lit: P) -> (r: Str) ensures r@ == strip_all(self@, lit.pat()) { unimplemented!() }
 }
 // ASSUMED[ascii-width]: '/' is one byte
 #[verifier::external_body]
